@@ -11,7 +11,6 @@ use alloc::{str::from_utf8, vec};
 #[cfg(feature = "zlib")]
 use miniz_oxide::inflate::decompress_to_vec_zlib_with_limit;
 
-use rustzx_z80::Z80Bus;
 
 const ZXST_MID_128K: u32 = 2;
 
@@ -190,12 +189,20 @@ fn process_spcr_block<H: Host>(emulator: &mut Emulator<H>, machine_id: u32, bloc
     // Only 128 and 48k models supported currently. Skipping block_data[2] (union)
 
     // chFe
-    emulator.controller.write_io(0x0fe, block_data[3]);
+    // Last value written to port 0xfe is restored directly on the devices: real OUT
+    // would also consume emulated time, which is not a part of the snapshot
+    #[cfg(feature = "sound")]
+    {
+        let mic = block_data[3] & 0x08 != 0;
+        let ear = block_data[3] & 0x10 != 0;
+        emulator.controller.mixer.beeper.change_state(ear, mic);
+    }
 
     // chBorder
-    // Setting the border after the out to 0xfe above because that too
-    // sets the border color.
-    emulator.controller.border_color = ZXColor::from_bits(block_data[0]);
+    let clocks = emulator.controller.frame_clocks;
+    emulator
+        .controller
+        .set_border_color(clocks, ZXColor::from_bits(block_data[0]));
 }
 
 // Process ZXSTAYBLOCK (AY00)
